@@ -335,6 +335,7 @@ def gen_logs(rng, n, tids=None, with_tai=False):
             strings.append(s)
         return strings.index(s)
     events = []
+    pool = [rng.ident(2, 8) for _ in range(3)]
     for i in range(n):
         ev = {'cm': sidx('msg %d %s' % (i, rng.ident())), 't': rng.pick(['Log', 'Activity', 'Signpost']),
               's': rng.randrange(0, 4096), 'tid': rng.pick(tids) if tids and rng.chance(0.6) else rng.pick([0, 0, 77, 4242]),
@@ -343,7 +344,8 @@ def gen_logs(rng, n, tids=None, with_tai=False):
               'utz': {'mw': rng.randrange(-720, 720), 'dt': rng.pick([0, 1])}}
         for k in LOG_OPTIONAL_STR:
             if rng.chance(0.4):
-                ev[k] = sidx(rng.ident())
+                # names are shared between fields and records (a sender may be called like another record's process)
+                ev[k] = sidx(rng.pick(pool) if rng.chance(0.6) else rng.ident())
         for k in LOG_OPTIONAL_INT:
             if rng.chance(0.3):
                 ev[k] = rng.randrange(0, 1 << 31)
@@ -506,3 +508,42 @@ def build_file(w, record_bytes):
                            filler2=bytes.fromhex(w.get('filler2', '')),
                            gaps=[bytes.fromhex(g) for g in w.get('gaps', [])], pad_last=w.get('pad_last', True),
                            plist_fmt=fmt)
+
+
+def dump_bytes(f):
+    """A dump spec {'threads', 'schedule', 'faults'?, 'writer', 't0'?} -> (bytes, merged stream, table)."""
+    table, stream = build_stream(f)
+    rb = [kernel.to_bytes(r) for r in stream]
+    data, _layout = build_file(f['writer'], rb)
+    return data, stream, table
+
+
+def gen_dump(rng, version=None, nthreads=None, mix=None, ops_hi=5, declare_all=True, logs=True, map_pid_base=50000):
+    """A dump whose thread map declares every simulated thread with pids from a range no program uses."""
+    version = version or rng.pick([2, 2, 3])
+    nthreads = nthreads or rng.randint(1, 4)
+    threads = gen_threads(rng, nthreads, 1, ops_hi, mix)
+    ids = catalog()['ids']
+    per = kernel.expand_threads(threads, ids)
+    f = {'threads': threads, 'schedule': kernel.draw_schedule(rng, per, rng.pick(kernel.SHAPES)),
+         't0': (rng.randrange(1, 1 << 40) << 8) | rng.randrange(1, 256)}
+    w = gen_writer(rng, version, threads, sum(len(p) for p in per), logs=logs)
+    tmap = []
+    npids = rng.randint(1, max(1, nthreads))
+    pids = [map_pid_base + i for i in range(npids)]
+    names = [rng.ident(2, 10) for _ in pids]
+    for i, th in enumerate(threads):
+        if declare_all or rng.chance(0.7):
+            j = rng.randrange(npids)
+            tmap.append([th['tid'], pids[j], names[j], ''])
+    for _ in range(rng.randint(0, 2)):
+        tmap.append([rng.randrange(5000, 9000), map_pid_base + 100 + rng.randrange(5), rng.ident(2, 8), ''])
+    # one name per pid
+    seen = {}
+    for t in tmap:
+        t[2] = seen.setdefault(t[1], t[2])
+    w['tmap'] = tmap
+    if version == 2:
+        w['pad'] = rng.pick([0, 8, 64])
+    f['writer'] = w
+    return f
